@@ -313,7 +313,7 @@ def check(pid, tier, seed, t0, st, replay):
     for k in ('translator', 'ocaml', 'harness'):
         if st.get(k, 1) != 0:
             res.tie_broken.append('build step %s failed (see .build/%s.log)' % (k, k))
-    work = scratch('scan-' + pid)
+    work = scratch('scan-' + pid, deterministic='%s-%d' % (tier, seed))
     try:
         if st.get('harness', 1) == 0 and st.get('ocaml', 1) == 0:
             if replay:
